@@ -191,6 +191,17 @@ def gen(seed, tier):
     out.append("s_zfill A1:.2d z0")
     out.append("s_capitalize A2:.,.61")
     out.append("s_replace A1:.6162 A1:.61 A1:.6261 n")
+    # joins of inputs of one rank whose other axes differ but hold equally many elements (seeded change C09j: the
+    # join validator compared products, the append behind it compared shapes and was unwrapped: a panic)
+    Lj = lambda arrs: f"L{len(arrs)} " + " ".join(arrs)
+    for s1, s2, ax in (([2, 3, 4], [2, 4, 3], 0), ([2, 2, 6], [1, 3, 4], 0), ([3, 2, 4], [4, 2, 3], 1), ([2, 3, 1], [3, 2, 1], 2),
+                       ([1, 2, 3, 2], [1, 3, 2, 2], 0), ([2, 2, 3], [2, 3, 2], 0), ([2, 6, 1], [2, 2, 3], 0), ([4, 1, 2], [2, 1, 4], 1)):
+        for op in ("concatenate", "stack"):
+            out.append(f"{op} {Lj([arr(s1), arr(s2, base=50)])} {z(ax)}")
+            out.append(f"{op} {Lj([arr(s1), arr(s1, base=20), arr(s2, base=50)])} {z(ax)}")
+        out.append(f"append {arr(s1)} {arr(s2, base=50)} {z(ax)}")
+        for op in ("vstack", "row_stack", "dstack", "column_stack"):
+            out.append(f"{op} {Lj([arr(s1), arr(s2, base=50)])}")
     # public operations WITHOUT a model, out-of-domain arguments only (`monp`: the harness answers z(1) for an error
     # value or a well-formed result and `panic` for a panic; the model side is the constant z(1)) — finding F31
     M = lambda name, ty, rest: out.append(f"monp@{ty} s{hexs(name)} {rest}")
